@@ -395,7 +395,7 @@ Proof.
   destruct (fwd_index_spec (cs_fwd (k_set k)) Hs Hb) as [_ Hnth].
   unfold fwd_scan, fwd_entry. hours.
   set (h := hour_of (k_dep k)) in *.
-  destruct (Z.gtb_spec h 32) as [Hgt|_]; [lia|].
+  destruct (Z.geb_spec h 32) as [Hgt|_]; [lia|].
   destruct (Z.ltb_spec h 0) as [Hlt|_]; [lia|]. cbn [orb].
   rewrite Hidx, (Hnth h Hh). f_equal.
   apply fold_left_skip_prefix. intros st c Hc.
@@ -426,50 +426,81 @@ Proof.
 Qed.
 
 (* ---------------------------------------------------------------------------------------------- *)
-(* the forward guard lets hour 32 through to a 32-entry table                                       *)
+(* both lookups are total: for EVERY hour (negative, beyond 32, the extremes of int) the guards answer   *)
+(* without reading past the 32-entry tables (the forward guard used to let hour 32 through: D4)         *)
 
-Theorem fwd_entry_hour32_oob : forall cs,
+Lemma filter_length_le : forall (A : Type) (f : A -> bool) (l : list A), (length (filter f l) <= length l)%nat.
+Proof. intros A f l. induction l as [|x r IH]; cbn [filter length]; [apply Nat.le_refl|]. destruct (f x); cbn [length]; lia. Qed.
+
+Theorem fwd_entry_total : forall cs h,
   dep_sorted cs -> (forall c, In c cs -> 0 <= c_dep c < 115200) ->
-  fwd_entry (mk_connset [] cs []) 32 = None.
+  exists i, fwd_entry (mk_connset [] cs []) h = Some i /\ (i <= length cs)%nat.
 Proof.
-  intros cs Hs Hb. destruct (fwd_index_spec cs Hs Hb) as [Hlen _].
+  intros cs h Hs Hb. destruct (fwd_index_spec cs Hs Hb) as [Hlen Hnth].
   unfold fwd_entry, mk_connset. hours. cbn [cs_fidx cs_fwd].
-  destruct (Z.gtb_spec 32 32) as [Hgt|_]; [lia|].
-  destruct (Z.ltb_spec 32 0) as [Hlt|_]; [lia|]. cbn [orb].
-  apply nth_error_None. rewrite Hlen. apply Nat.eq_le_incl. reflexivity.
+  destruct (Z.geb_spec h 32) as [Hge|Hlt32]; cbn [orb].
+  - exists (length cs). split; [reflexivity|apply Nat.le_refl].
+  - destruct (Z.ltb_spec h 0) as [Hlt|Hge0].
+    + exists (length cs). split; [reflexivity|apply Nat.le_refl].
+    + rewrite (Hnth h) by lia. eexists. split; [reflexivity|]. apply filter_length_le.
 Qed.
 
-(* the same fact at the scan: a departure time in [32:00, 33:00) reads one past the end of the table *)
-Theorem fwd_scan_hour32_UB : forall d p k all_nodes,
+Theorem rev_entry_total : forall cs h,
+  arr_sorted_desc cs ->
+  exists i, rev_entry (mk_connset [] [] cs) h = Some i /\ (i <= length cs)%nat.
+Proof.
+  intros cs h Hs. destruct (rev_index_spec cs Hs) as (Hlen & H0 & Hnth).
+  unfold rev_entry, mk_connset. hours. cbn [cs_ridx cs_rev].
+  destruct (Z.ltb_spec h 0) as [Hlt|Hge0].
+  - exists (length cs). split; [reflexivity|apply Nat.le_refl].
+  - destruct (Z.gtb_spec h (32 - 1)) as [Hgt|Hle].
+    + exists 0%nat. split; [reflexivity|apply Nat.le_0_l].
+    + destruct (Z.eq_dec h 0) as [->|Hne].
+      * change (Z.to_nat 0) with 0%nat. rewrite H0. exists (length cs). split; [reflexivity|apply Nat.le_refl].
+      * rewrite (Hnth h) by lia. eexists. split; [reflexivity|]. apply filter_length_le.
+Qed.
+
+(* at the scan: any non-negative request time, also in the 33rd hour and at INT_MAX, yields a scan result *)
+Theorem fwd_scan_total : forall d p k all_nodes,
   dep_sorted (cs_fwd (k_set k)) ->
   (forall c, In c (cs_fwd (k_set k)) -> 0 <= c_dep c < 115200) ->
   cs_fidx (k_set k) = fwd_index (cs_fwd (k_set k)) ->
-  115200 <= k_dep k < 118800 ->
-  fwd_scan d p k all_nodes = UB U_INDEX.
+  exists st, fwd_scan d p k all_nodes = Ok st.
 Proof.
-  intros d p k all_nodes Hs Hb Hidx Hdep.
-  destruct (fwd_index_spec (cs_fwd (k_set k)) Hs Hb) as [Hlen _].
-  assert (Hh : hour_of (k_dep k) = 32).
-  { unfold hour_of. rewrite Z.quot_div_nonneg by lia.
-    pose proof (Z.div_mod (k_dep k) 3600 ltac:(lia)) as Hdm.
-    pose proof (Z.mod_pos_bound (k_dep k) 3600 ltac:(lia)) as Hmb.
-    set (q := k_dep k / 3600) in *. set (m := k_dep k mod 3600) in *. lia. }
-  unfold fwd_scan, fwd_entry. hours. rewrite Hh.
-  destruct (Z.gtb_spec 32 32) as [Hgt|_]; [lia|].
-  destruct (Z.ltb_spec 32 0) as [Hlt|_]; [lia|]. cbn [orb].
-  rewrite Hidx.
-  assert (Hn : nth_error (fwd_index (cs_fwd (k_set k))) (Z.to_nat 32) = None).
-  { apply nth_error_None. rewrite Hlen. apply Nat.eq_le_incl. reflexivity. }
-  rewrite Hn. reflexivity.
+  intros d p k all_nodes Hs Hb Hidx.
+  destruct (fwd_index_spec (cs_fwd (k_set k)) Hs Hb) as [Hlen Hnth].
+  unfold fwd_scan, fwd_entry. hours.
+  set (h := hour_of (k_dep k)) in *.
+  destruct (Z.geb_spec h 32) as [Hge|Hlt32]; cbn [orb].
+  - eexists. reflexivity.
+  - destruct (Z.ltb_spec h 0) as [Hlt|Hge0].
+    + eexists. reflexivity.
+    + rewrite Hidx, (Hnth h) by lia. eexists. reflexivity.
 Qed.
 
-(* the reverse lookup has the matching guard: hour 32 is answered without touching the table *)
-Theorem rev_entry_hour32_guarded : forall s, rev_entry s 32 = Some 0%nat.
-Proof. intros s. reflexivity. Qed.
+Theorem rev_scan_total : forall d p k all_nodes,
+  arr_sorted_desc (cs_rev (k_set k)) ->
+  cs_ridx (k_set k) = rev_index (cs_rev (k_set k)) ->
+  exists st, rev_scan d p k all_nodes = Ok st.
+Proof.
+  intros d p k all_nodes Hs Hidx.
+  destruct (rev_index_spec (cs_rev (k_set k)) Hs) as (Hlen & H0 & Hnth).
+  unfold rev_scan, rev_entry. hours.
+  set (h := hour_of (k_arr k) + 1) in *.
+  destruct (Z.ltb_spec h 0) as [Hlt|Hge0].
+  - eexists. reflexivity.
+  - destruct (Z.gtb_spec h (32 - 1)) as [Hgt|Hle].
+    + eexists. reflexivity.
+    + rewrite Hidx. destruct (Z.eq_dec h 0) as [Hz|Hne].
+      * rewrite Hz. change (Z.to_nat 0) with 0%nat. rewrite H0. eexists. reflexivity.
+      * rewrite (Hnth h) by lia. eexists. reflexivity.
+Qed.
 
 Print Assumptions fwd_index_spec.
 Print Assumptions rev_index_spec.
 Print Assumptions C12_index_fwd.
 Print Assumptions C12_index_rev.
-Print Assumptions fwd_entry_hour32_oob.
-Print Assumptions fwd_scan_hour32_UB.
+Print Assumptions fwd_entry_total.
+Print Assumptions rev_entry_total.
+Print Assumptions fwd_scan_total.
+Print Assumptions rev_scan_total.
